@@ -135,12 +135,14 @@ parseSegments:
 		return nil, fmt.Errorf("no metadata found")
 	}
 
+	// An inconsistency among the ICC chunks has already been recorded
+	if _, iccErr := md.ICCProfileData(); iccErr != nil {
+		return md, nil
+	}
+
 	// Incomplete or missing ICC profile
 	if len(iccProfileChunks) != iccProfileChunksExtracted {
-		_, iccErr := md.ICCProfileData()
-		if iccErr == nil {
-			md.SetICCProfileError(fmt.Errorf("incomplete ICC profile data"))
-		}
+		md.SetICCProfileError(fmt.Errorf("incomplete ICC profile data"))
 		return md, nil
 	}
 
